@@ -108,7 +108,7 @@ def job_binop(tid, src, tname, opname, cfg, evm="cancun", scale=1):
     c = V.binop_contract(BINOPS[opname], t, X, Y)
     should = z3.And(z3.UGE(env.calldatasize, BV(68)), T.selector(env) == BV(mid), env.callvalue == 0, t.canonical(X), t.canonical(Y), c["ok"])
     terms = T.cd_eval_terms(env, 3)
-    discharge(obs, "paths-exhaustive", z3.Or(*[o.pc for o in outs]), timeout_ms=timeout, replay=replay)
+    discharge(obs, "paths-exhaustive", z3.Or(*[o.pc for o in outs]), hyps=list(env.assumptions), timeout_ms=timeout, replay=replay)
     for o in outs:
         if o.status == "return":
             goal = z3.And(should, o.data["len"] == BV(32), c["value_ok"](T.ret_word(o, 0)), t.canonical(T.ret_word(o, 0)))
@@ -157,7 +157,7 @@ def job_dispatch(tid, src, cfg, evm="cancun", scale=1):
         return (x ^ BV(k)) if f["nargs"] else BV(k)
 
     any_ok = z3.Or(*[entry_ok(f) for f in fns])
-    discharge(obs, "paths-exhaustive", z3.Or(*[o.pc for o in outs]), timeout_ms=timeout, replay=replay)
+    discharge(obs, "paths-exhaustive", z3.Or(*[o.pc for o in outs]), hyps=list(env.assumptions), timeout_ms=timeout, replay=replay)
     terms = T.cd_eval_terms(env, 2)
     for o in outs:
         if success(o):
